@@ -135,7 +135,12 @@ func checkC11(c *hx.Ctx) {
 					b, err = d.Recover(genPatches(r, 3, ids), nil, genOrigin(r), from, until)
 				}
 			default:
-				b, err = d.Update(genPatches(r, 3, ids), from, until)
+				ups := genPatches(r, 3, ids)
+				if r.Chance(1, 4) {
+					ups = append(ups, copyThenChange(r))
+					c.Count("updates_copying_a_member_and_changing_the_copy")
+				}
+				b, err = d.Update(ups, from, until)
 			}
 			if err != nil {
 				fail("client builder refused valid inputs: "+err.Error(), map[string]interface{}{"step": k})
@@ -258,6 +263,18 @@ func checkC11(c *hx.Ctx) {
 		}
 		var H []*ref.Op
 		for k, b := range built {
+			if i%4 == 3 && k >= 1 {
+				// anyone can anchor anything for this DID: a worthless request (no usable reveal value) of the same kind of
+				// operation, anchored just before the client's one, is skipped and changes nothing
+				kind := b.Desc.Type
+				if kind != "update" {
+					kind = hx.Pick(r, []string{"recover", "deactivate"})
+				}
+				junk := &ref.Op{Label: fmt.Sprintf("junk-%s#%d", kind, k), Type: kind,
+					Request: []byte(hx.Pick(r, []string{fmt.Sprintf(`{"type":%q,"didSuffix":%q,"revealValue":"EiAAAA","signedData":"a.b.c"}`, kind, d.Suffix), `{"type":"` + kind + `"}`, `not json`}))}
+				H = append(H, Place(junk, t+uint64(10*k)-3, uint64(r.Intn(5)), fmt.Sprintf("junk%d", k), p.GenesisTime))
+				c.Count("client_operations_after_a_worthless_neighbour")
+			}
 			H = append(H, Place(b.Desc, t+uint64(10*k), uint64(r.Intn(5)), fmt.Sprintf("ref%d", k), p.GenesisTime))
 			c.Eval()
 			st, merr := ref.Resolve(H, ref.ResolveOpts{})
@@ -292,7 +309,9 @@ func checkC11(c *hx.Ctx) {
 	}
 	c.Floor("chains_crossing_a_protocol_upgrade", 50)
 	c.Floor("chains_with_windows_longer_than_the_time_delta", 100)
+	c.Floor("updates_copying_a_member_and_changing_the_copy", 50)
 	c.Floor("chains_with_unusual_key_ids", 100)
+	c.Floor("client_operations_after_a_worthless_neighbour", 100)
 	_ = protocol.Protocol{}
 }
 
@@ -473,4 +492,27 @@ func chainsThroughBatchFiles(c *hx.Ctx, nPairs int) {
 		}
 		c.Distinct(fmt.Sprintf("bf|%v|%v", labelsOf(H[chains[0]]), labelsOf(H[chains[1]])))
 	})
+}
+
+// copyThenChange is one ietf-json-patch that adds an object-valued member, copies it and then changes the copy and / or the
+// source: RFC 6902 copies values, so source and copy are independent afterwards.
+func copyThenChange(r *hx.Rng) map[string]interface{} {
+	src := hx.Pick(r, []string{"profile", "settings", "m1"})
+	dst := hx.Pick(r, []string{"backup", "archive", "m2"})
+	ops := []map[string]interface{}{
+		{"op": "add", "path": "/" + src, "value": map[string]interface{}{"name": fmt.Sprint("n", r.Intn(50)), "tags": []interface{}{"a", "b"}, "nested": map[string]interface{}{"k": 1.0}}},
+		{"op": "copy", "from": "/" + src, "path": "/" + dst},
+	}
+	for k := 0; k < 1+r.Intn(3); k++ {
+		target := hx.Pick(r, []string{src, dst})
+		switch r.Intn(3) {
+		case 0:
+			ops = append(ops, map[string]interface{}{"op": "add", "path": "/" + target + "/" + hx.Pick(r, []string{"archived", "extra"}), "value": r.Bool()})
+		case 1:
+			ops = append(ops, map[string]interface{}{"op": "replace", "path": "/" + target + "/name", "value": fmt.Sprint("changed", k)})
+		default:
+			ops = append(ops, map[string]interface{}{"op": "add", "path": "/" + target + "/tags", "value": []interface{}{"c"}})
+		}
+	}
+	return patchJSON(ops...)
 }
